@@ -56,13 +56,25 @@ func c06tools() (*c06Tools, error) {
 // guard runs f and turns a panic into a finding keyed by the panic message
 // and the operation.
 func guard(op string, wire []byte, f func()) (err error) {
-	defer func() {
-		if r := recover(); r != nil {
-			err = finding("panic/"+op, "%s panics on a value decoded from %x: %v\n%s", op, wire, r, debug.Stack())
-		}
+	// the operation runs under a watchdog: a call that has not returned after 60 s on an input of a few kilobytes
+	// (the unchanged library answers in microseconds) is reported as a hang; the stuck goroutine is left behind
+	done := make(chan error, 1)
+	go func() {
+		defer func() {
+			if r := recover(); r != nil {
+				done <- finding("panic/"+op, "%s panics on a value decoded from %x: %v\n%s", op, wire, r, debug.Stack())
+				return
+			}
+			done <- nil
+		}()
+		f()
 	}()
-	f()
-	return nil
+	select {
+	case err = <-done:
+		return err
+	case <-time.After(60 * time.Second):
+		return finding("hang/"+op, "%s has not returned after 60 s on (a value decoded from) %x", op, wire)
+	}
 }
 
 // exerciseHeaders calls the header accessors and verifies every nested
